@@ -24,7 +24,7 @@ func clipCtr(v uint64) int {
 }
 
 // TagClass maps an instance tag to a small integer: 0 zero, -1 malformed
-// (<0x100), 1 A's, 2 B's, 3 any other valid tag.
+// (<0x100), 1 A's, 2 B's, 3, 4, ... other valid tags in order of appearance.
 func (w *World) TagClass(t uint32) int {
 	switch {
 	case t == 0:
@@ -37,7 +37,15 @@ func (w *World) TagClass(t uint32) int {
 			return i + 1
 		}
 	}
-	return 3
+	if w.otherTags == nil {
+		w.otherTags = map[uint32]int{}
+	}
+	if c, ok := w.otherTags[t]; ok {
+		return c
+	}
+	c := 3 + len(w.otherTags)
+	w.otherTags[t] = c
+	return c
 }
 
 func versionsList(two, three bool, others ...int) []int {
@@ -57,7 +65,7 @@ func versionsList(two, three bool, others ...int) []int {
 func (w *World) Abs(raw [][]byte, from, to string) M {
 	full, err := ref.Reassemble(raw)
 	if err != nil {
-		return M{"t": "G", "why": "fragments"}
+		return garbage("fragments", 0, 0, 0, 0, 0)
 	}
 	m := w.absWhole(full, from, to)
 	m["nf"] = len(raw)
@@ -74,9 +82,9 @@ func (w *World) absWhole(full []byte, from, to string) M {
 	case strings.HasPrefix(s, "?OTR?") || strings.HasPrefix(s, "?OTRv"):
 		return M{"t": "Q", "vs": parseQueryVersions(s)}
 	case strings.HasPrefix(s, "?OTR|") || strings.HasPrefix(s, "?OTR,"):
-		return M{"t": "G", "why": "stray fragment"}
+		return garbage("strayfragment", 0, 0, 0, 0, 0)
 	case strings.HasPrefix(s, "?OTR"):
-		return M{"t": "G", "why": "unknown ?OTR"}
+		return garbage("unknown", 0, 0, 0, 0, 0)
 	}
 	if i := bytes.Index(full, wsHeader); i >= 0 {
 		rest := full[i+len(wsHeader):]
@@ -123,24 +131,50 @@ func parseQueryVersions(s string) []int {
 	return out
 }
 
+var knownPrefixes = []string{"?OTR:AAMC", "?OTR:AAIC", "?OTR:AAMK", "?OTR:AAIK", "?OTR:AAMR", "?OTR:AAIR",
+	"?OTR:AAMS", "?OTR:AAIS", "?OTR:AAED", "?OTR:AAID", "?OTR:AAMD"}
+
+func garbage(why string, v int, st, rt int, typ int, flag int) M {
+	return M{"t": "G", "why": why, "v": v, "st": st, "rt": rt, "typ": typ, "flag": flag}
+}
+
 func (w *World) absEncoded(full []byte, from, to string) M {
+	kp := false
+	for _, p := range knownPrefixes {
+		if strings.HasPrefix(string(full), p) {
+			kp = true
+		}
+	}
+	if strings.HasPrefix(string(full), "?OTR:AAEK") {
+		return garbage("v1", 1, 0, 0, 0, 0)
+	}
+	if !kp {
+		return garbage("unknown", 0, 0, 0, 0, 0)
+	}
 	raw, err := ref.Dearmor(full)
 	if err != nil {
-		return M{"t": "G", "why": "armour"}
+		return garbage("armour", 0, 0, 0, 0, 0)
+	}
+	if len(raw) < 2 {
+		return garbage("short0", 0, 0, 0, 0, 0)
+	}
+	ver := int(raw[0])<<8 | int(raw[1])
+	if ver != 2 && ver != 3 {
+		return garbage("version", clipCtr(uint64(ver)), 0, 0, 0, 0)
 	}
 	h, err := ref.ParseHeader(raw)
 	if err != nil {
-		if h != nil {
-			return M{"t": "G", "why": "version", "v": h.Version}
-		}
-		return M{"t": "G", "why": "header"}
+		return garbage("hdrshort", ver, 0, 0, 0, 0)
 	}
 	m := M{"v": h.Version, "st": w.TagClass(h.ST), "rt": w.TagClass(h.RT)}
+	g := func(why string, flag int) M {
+		return garbage(why, h.Version, w.TagClass(h.ST), w.TagClass(h.RT), int(h.Type), flag)
+	}
 	switch h.Type {
 	case ref.TypeDHCommit:
 		c, err := ref.ParseDHCommit(h.Body)
 		if err != nil {
-			return M{"t": "G", "why": "dhcommit", "v": h.Version, "st": m["st"], "rt": m["rt"]}
+			return g("dhcommit", 0)
 		}
 		m["t"] = "DHC"
 		enc, hash := -1, -1
@@ -153,19 +187,34 @@ func (w *World) absEncoded(full []byte, from, to string) M {
 				hash = s.ID
 			}
 		}
+		if enc == -1 {
+			// an attacker-built commitment to a degenerate value
+			if id, ok := w.EvilCommits[string(c.EncGx)]; ok {
+				enc = id
+				if bytes.Equal(ref.SHA256(ref.PutMPI(nil, w.EvilValues[id])), c.HashGx) {
+					hash = id
+				}
+			}
+		}
+		if len(c.EncGx) == 0 {
+			enc = 0
+		}
+		if len(c.HashGx) == 0 {
+			hash = 0
+		}
 		m["enc"], m["hash"] = enc, hash
 		m["hashraw"] = c.HashGx
 	case ref.TypeDHKey:
 		k, err := ref.ParseDHKey(h.Body)
 		if err != nil {
-			return M{"t": "G", "why": "dhkey", "v": h.Version, "st": m["st"], "rt": m["rt"]}
+			return g("dhkey", 0)
 		}
 		m["t"] = "DHK"
 		m["gy"] = w.Reg.PubID(k.Gy)
 	case ref.TypeRevealSig:
 		r, err := ref.ParseRevealSig(h.Body)
-		if err != nil || len(r.R) != 16 {
-			return M{"t": "G", "why": "revealsig", "v": h.Version, "st": m["st"], "rt": m["rt"]}
+		if err != nil || len(r.R) != 16 || len(r.Rest) != 0 {
+			return g("revealsig", 0)
 		}
 		m["t"] = "RS"
 		rid := -1
@@ -174,23 +223,30 @@ func (w *World) absEncoded(full []byte, from, to string) M {
 				rid = s.ID
 			}
 		}
+		if id, ok := w.EvilRs[string(r.R)]; ok {
+			rid = id
+		}
 		m["r"] = rid
 		m["xs"] = w.absSigBlob(r.EncSig, r.MAC, from, to)
 	case ref.TypeSig:
 		r, err := ref.ParseSig(h.Body)
-		if err != nil {
-			return M{"t": "G", "why": "sig", "v": h.Version, "st": m["st"], "rt": m["rt"]}
+		if err != nil || len(r.Rest) != 0 {
+			return g("sig", 0)
 		}
 		m["t"] = "SIG"
 		m["xs"] = w.absSigBlob(r.EncSig, r.MAC, from, to)
 	case ref.TypeData:
+		flag := 0
+		if len(h.Body) > 0 {
+			flag = int(h.Body[0])
+		}
 		d, err := ref.ParseData(h.Body)
-		if err != nil {
-			return M{"t": "G", "why": "data", "v": h.Version, "st": m["st"], "rt": m["rt"]}
+		if err != nil || binary.BigEndian.Uint64(d.Ctr[:]) == 0 || len(d.OldMACs)%20 != 0 {
+			return g("data", flag)
 		}
 		w.absData(m, h, d, from, to)
 	default:
-		return M{"t": "G", "why": "type", "v": h.Version, "st": m["st"], "rt": m["rt"]}
+		return g("type", 0)
 	}
 	return m
 }
